@@ -17,6 +17,7 @@ MUTANTS = {  # model-level sensitivity: each wrong client must violate one of th
     "outer-sni-secret": {"NoLeak", "OuterOK"},
     "inner-names-public": {"InnerOK"},
     "stale-shares": {"InnerOK"},                        # the D8 pattern
+    "stale-outer-list": {"InnerOK"},                    # ech_outer_extensions of the second inner hello computed before the cookie was inserted
     "ignore-signal": {"OutcomeRule", "AcceptReported", "RejectionCarriesRetry"},
     "verify-servername-always": {"VerifyNameRule", "OutcomeRule"},   # the D10 pattern
     "drop-retry": {"RejectionCarriesRetry"},
@@ -24,12 +25,12 @@ MUTANTS = {  # model-level sensitivity: each wrong client must violate one of th
 INVS = "ScenarioSane Progress NoLeak OuterOK InnerOK DecryptOK AcceptReported RejectionCarriesRetry VerifyNameRule OutcomeRule"
 
 
-def mc_cfg(ctx, name, cfgids, aeads, maxlens, names, shapes, usages, sample, mutant):
+def mc_cfg(ctx, name, cfgids, aeads, maxlens, names, shapes, usages, cookies, sample, mutant):
     st = lambda xs: "{" + ", ".join(str(x) for x in xs) + "}"
     open(ctx.scratch + "/%s.cfg" % name, "w").write(
-        "CONSTANTS\n  CfgIds = %s\n  AeadIds = %s\n  MaxLens = %s\n  NameSets = %s\n  ShapeIdx = %s\n  UsageIdx = %s\n  Sample = %d\n  Mutant = \"%s\"\n"
+        "CONSTANTS\n  CfgIds = %s\n  AeadIds = %s\n  MaxLens = %s\n  NameSets = %s\n  ShapeIdx = %s\n  UsageIdx = %s\n  CookieLens = %s\n  Sample = %d\n  Mutant = \"%s\"\n"
         "INIT Init\nNEXT Next\nINVARIANTS %s\nCONSTRAINT Emit\nCHECK_DEADLOCK FALSE\n"
-        % (st(cfgids), st(aeads), st(maxlens), st(names), st(shapes), st(usages), sample, mutant, INVS))
+        % (st(cfgids), st(aeads), st(maxlens), st(names), st(shapes), st(usages), st(cookies), sample, mutant, INVS))
     return name
 
 
@@ -82,7 +83,7 @@ def sig_of(s, kind, detail):
 
 
 def brief(s):
-    return {k: (bytes(v).decode() if k in ("sname", "pubname") else v) for k, v in s.items()}
+    return {k: (bytes(v).decode() if k in ("sname", "pubname") else v) for k, v in s.items() if k != "ck"}
 
 
 def run(ctx):
@@ -91,11 +92,11 @@ def run(ctx):
     ctx.write_json("ech_ids.json", {k: {f: v[f] for f in ("kinds", "groups", "shares")} for k, v in ids.items()})
 
     # ---- model checking: the grid + the properties on model-built bytes; scenarios out
-    full = ([0, 7, 255], [1, 2, 3], [0, 32, 255], [1, 2], [1, 2, 3, 4], [1, 2, 3, 4, 5])
+    full = ([0, 7, 255], [1, 2, 3], [0, 32, 255], [1, 2], [1, 2, 3, 4], [1, 2, 3, 4, 5], [0, 1, 32, 255])
     sample = ctx.seed % 6 + (0 if ctx.quick else 10)
     # (the model-level mutants run side by side with it: a wrong client in the model must violate the matching invariant)
     def mutant(m):
-        r = ctx.tlc("ECH_MC", cfg=mc_cfg(ctx, "ECH_MC_mut_" + m.replace("-", "_"), [7], [1], [32], [1], [1], [1, 3], 99, m), workers=1, timeout=600, count=False)
+        r = ctx.tlc("ECH_MC", cfg=mc_cfg(ctx, "ECH_MC_mut_" + m.replace("-", "_"), [7], [1], [32], [1], [1], [1, 3], [0, 32], 99, m), workers=1, timeout=600, count=False)
         return m, set(r.violated)
     with cf.ThreadPoolExecutor(max_workers=7) as ex:
         fmc = ex.submit(lambda: ctx.tlc("ECH_MC", cfg=mc_cfg(ctx, "ECH_MC_run", *full, sample, "none"), workers=8 if ctx.quick else 12, timeout=1500))
@@ -148,12 +149,17 @@ def run(ctx):
         # of the failing usages (shapes), some tested shape (usage) does not show it.
         ok2 = [(sc, kind, detail) for sc, kind, detail in rej if (sc, kind, detail) in rej2]
         fails = {}
+        DIMS = ("shape", "usage", "ck")
+        idc = lambda x: "golang" if x["id"] == "Golang" else "utls"
+        for x in scns:
+            x["ck"] = "cookie" if x["cookie"] > 0 else "nocookie"
         for sc, kind, detail in ok2:
-            f = fails.setdefault(sig_of(scns[sc], kind, detail), {"shape": set(), "usage": set()})
-            f["shape"].add(scns[sc]["shape"]); f["usage"].add(scns[sc]["usage"])
-        def depends(sig, dim, other):
+            f = fails.setdefault(sig_of(scns[sc], kind, detail), {d: set() for d in DIMS})
+            for d in DIMS:
+                f[d].add(scns[sc][d])
+        def depends(sig, dim, like):
             f = fails[sig]
-            tested = {x[dim] for x in scns if x[other] in f[other]}
+            tested = {x[dim] for x in scns if x["server"] == like["server"] and idc(x) == idc(like) and all(x[o] in f[o] for o in DIMS if o != dim)}
             return f[dim] != tested
         for sc, kind, detail in rej:
             s = scns[sc]
@@ -162,9 +168,10 @@ def run(ctx):
                 continue
             r = results[sc]
             base = sig_of(s, kind, detail)
-            sig = base + (":list=" + s["shape"] if depends(base, "shape", "usage") else "") + (":usage=" + s["usage"] if depends(base, "usage", "shape") else "")
-            ctx.finding(sig, "%s, usage %s, config list %s, server %s, certificate valid for %s: %s %s; client error [%s] %s; server error %s"
-                        % (s["id"], s["usage"], s["shape"], s["server"], s["cert"], kind, clean(detail), r["errtype"], r["cerr"][:120], r["serr"][:120]),
+            sig = base + (":list=" + s["shape"] if depends(base, "shape", s) else "") + (":usage=" + s["usage"] if depends(base, "usage", s) else "") \
+                       + (":hrr-" + s["ck"] if depends(base, "ck", s) else "")
+            ctx.finding(sig, "%s, usage %s, config list %s, server %s (HRR cookie %d bytes), certificate valid for %s: %s %s; client error [%s] %s; server error %s"
+                        % (s["id"], s["usage"], s["shape"], s["server"], s["cookie"], s["cert"], kind, clean(detail), r["errtype"], r["cerr"][:120], r["serr"][:120]),
                         {"scenario": brief(s), "kind": kind, "detail": detail,
                          "observed": {k: r[k] for k in ("errtype", "cerr", "serr", "cok", "sok", "echo")} if sig not in seen else "see first case"})
             seen.add(sig)
@@ -217,13 +224,26 @@ def run(ctx):
             inn = [e for e in t if e["ev"] == "H9" and e["what"] == "ech_inner"]
             inn[1]["raw"] = list(inn[0]["raw"])
         canaries += [("good-hrr", forge(g_hrr, 900020, lambda t: None), None), ("stale-inner-after-hrr", forge(g_hrr, 900021, stale), {"inner"})]
+    g_ck = pick(lambda s, r: s["server"] == "hrr" and s["cookie"] > 0 and s["id"] != "Golang" and r["errtype"] == "none")
+    if g_ck:
+        def other_cookie(t):   # the HelloRetryRequest handed out another cookie than the one both second hellos echo
+            h = next(e for e in t if e["ev"] == "SMsg" and e["t"] == 2 and e["raw"][6:38] == HRR)["raw"]
+            i = 39 + h[38] + 3 + 2
+            while i + 4 <= len(h):
+                typ, n = h[i] * 256 + h[i + 1], h[i + 2] * 256 + h[i + 3]
+                if typ == 44:
+                    h[i + 4 + n - 1] ^= 1
+                    return
+                i += 4 + n
+            raise vlib.Machinery("canary: no cookie extension in the recorded HelloRetryRequest")
+        canaries += [("good-hrr-cookie", forge(g_ck, 900030, lambda t: None), None), ("cookie-not-echoed", forge(g_ck, 900031, other_cookie), {"inner", "outer"})]
     if canaries:
         crej = validate(ctx, [c[1] for c in canaries], 1, "canary", count=False)
         for name, t, want in canaries:
             kinds = {r[1] for r in crej if r[0] == t[0]["sc"]}
             if (want is None and kinds) or (want is not None and not (want <= kinds)):
                 raise vlib.Machinery("binding canary %s: expected rejection kinds %s, TLC gave %s" % (name, want, sorted(kinds)))
-    if not ctx.findings and not (g_acc and g_rej and g_hrr):
+    if not ctx.findings and not (g_acc and g_rej and g_hrr and g_ck):
         raise vlib.Machinery("no clean accept / accept-after-HRR / reject trace to build the binding canaries from")
 
     # ---- vacuity (computed from what was observed; not enforced over findings, which explain a missing class themselves)
@@ -234,6 +254,8 @@ def run(ctx):
         "hrr_observed": count(lambda s, r, g: s["server"] == "hrr" and any(e["ev"] == "SMsg" and e["t"] == 2 and e["raw"][6:38] == HRR for e in g)
                               and sum(1 for e in g if e["ev"] == "CRec" and e["typ"] == 22 and e["payload"][:1] == [1]) == 2),
         "hrr_done": count(lambda s, r, g: s["server"] == "hrr" and r["errtype"] == "none" and r["cs"]["ech"]),
+        "hrr_cookie_done_utls": count(lambda s, r, g: s["server"] == "hrr" and s["cookie"] > 0 and s["id"] != "Golang" and r["errtype"] == "none" and r["cs"]["ech"]),
+        "reject_hrr_cookie": count(lambda s, r, g: s["server"] == "reject_hrr" and s["cookie"] > 0 and r["errtype"] in ("ECHRejectionError", "CertificateVerificationError")),
         "second_inner_seen": count(lambda s, r, g: sum(1 for e in g if e["ev"] == "H9" and e["what"] == "ech_inner") == 2),
         "rejected_with_retry": count(lambda s, r, g: s["server"] in ("reject", "reject_hrr") and r["errtype"] == "ECHRejectionError" and len(r["retry"]) > 0),
         "rejected_without_retry": count(lambda s, r, g: r["errtype"] == "ECHRejectionError" and len(r["retry"]) == 0),
@@ -253,7 +275,7 @@ def run(ctx):
     by = lambda k: {v: sum(1 for s in scns if s[k] == v) for v in sorted({s[k] for s in scns})}
     cov = {"evaluations": len(scns), "distinct_nontrivial": len({json.dumps({k: v for k, v in s.items() if k != "sc"}, sort_keys=True) for s in scns}),
            "rule": "terminal states of ECH_MC = ECH-capable IDs (from the dumped extension lists) x {config_id 0/7/255} x {AEAD 1/2/3} x {maximum_name_length 0/32/255} "
-                   "x {2 name pairs} x ECHConfigList shape {single, [usable, second usable], [usable, unknown version, unsupported KEM], [unknown version, unsupported KEM, usable]} x server {accept, accept after HRR for each classical group without share, reject with 0/1/2 retry configs, reject after HRR, no ECH} "
+                   "x {2 name pairs} x ECHConfigList shape {single, [usable, second usable], [usable, unknown version, unsupported KEM], [unknown version, unsupported KEM, usable]} x server {accept, accept after HRR for each classical group without share, reject with 0/1/2 retry configs, reject after HRR, no ECH}, every HelloRetryRequest without / with a cookie of 1, 32, 255 bytes "
                    "x certificate {ServerName, public name, both, neither}; %s; every scenario replayed once, rejected ones twice; distinct = distinct scenarios"
                    % ("quick: config x AEAD x max-length reduced to a Latin square chosen by VERIF_SEED (a ninth of their product), name pair, list shape and caller usage "
                       "{Handshake only, BuildHandshakeState once/twice before, build+SetClientRandom, build+SetSNI(same name)} tied to it (each shape and each usage with every ID, server behaviour and certificate)"
